@@ -509,3 +509,7 @@ def run(ctx, R):
     R.count('R2.1', 1, 1)
     r22(ctx, R)
     r23(ctx, R)
+    from psa import sqlshape
+    n = sqlshape.shape_rule(ctx, R, 'R2.4', [
+        RC + ':get_providers_with_resource', RC + ':_usage_select'])
+    R.count('R2.4', n, 2)
